@@ -297,6 +297,16 @@ func VerifCore_CommitDecide() {
 		if e.p.Progress().ID != verifInstance {
 			break
 		}
+		if idx != verifByzIdx && sym.Bool("forged-decide-in-its-name") {
+			// the adversary forges a DECIDE in the name of an honest member that has
+			// not sent one, for another value, and sends it twice
+			f := VerifMessage(e.c, idx, verifInstance, 0, DECIDE_PHASE, VerifX(1), VerifJustification(e.c, verifInstance, 0, COMMIT_PHASE, VerifX(1), 0, 1, verifByzIdx))
+			f.Signature = []byte("forged-signature-forged-signature")
+			sym.Assert(!e.deliver(f), "a forged message is rejected")
+			sym.Assert(!e.deliver(f), "a forged message is rejected again when it is sent a second time")
+			sym.Cover("forged")
+			continue
+		}
 		if sym.Bool("decide-vote") {
 			if m := e.message(idx, 0, DECIDE_PHASE, input, 4, 0); m != nil {
 				if idx == verifByzIdx && sym.Bool("byzantine-decide-signed-over-other-commitments") {
@@ -556,6 +566,7 @@ func VerifCore_QueuedStart() {
 	input := VerifX(2)
 	e := newVerifEnv(input, false)
 	d := newVerifEnv(input, false)
+	d.votes = e.votes // one world of existing signatures
 	sym.Assert(e.p.StartInstanceAt(verifInstance, e.h.now) == nil, "R4: StartInstanceAt succeeds")
 	e.lastProgress = e.p.Progress()
 	foreign := VerifX(5)
@@ -905,4 +916,68 @@ func VerifCore_PrepareBacklog() {
 		sym.Assert(commit.Payload.Value.Eq(proposal) && commit.Justification != nil, "commits its proposal with a justification")
 		sym.Assert(strong || proofHeld, "V3/R8: commits a value only on a strong PREPARE quorum or proof of one")
 	}
+}
+
+// VerifCore_LateQuality (T2/R6, progress): QUALITY times out before any vote
+// arrives, so the proposal shrinks to the base; the peers' QUALITY votes for
+// (a prefix of) the input arrive late.  Round 0 then fails with COMMIT bottom.
+// In round 1 the participant adopts a peer's best-ticket CONVERGE value when
+// it is a prefix of its own input backed by a strong quorum of the (late)
+// QUALITY votes — otherwise rounds would keep failing although everybody
+// honest could agree on that value.
+func VerifCore_LateQuality() {
+	input := VerifX(3) // [b,2,3]
+	e := newVerifEnv(input, false)
+	e.start()
+	e.fireAlarm(0) // QUALITY times out without any vote
+	sym.Assume(e.phase() == PREPARE_PHASE)
+	sym.Assert(e.lastBroadcast().Payload.Value.Eq(VerifX(1)), "R5: without QUALITY votes the proposal is the base")
+	// late QUALITY votes: each peer voted for the input, its prefix [b,2], or nothing arrives
+	for _, idx := range []int{0, 1} {
+		if v, _ := verifPick("late-quality", 3, 2); v != nil {
+			if m := e.message(idx, 0, QUALITY_PHASE, v, 0, 0); m != nil {
+				e.deliver(m)
+			}
+		}
+	}
+	if sym.Bool("echo-own-quality") {
+		e.echo(0)
+	}
+	backed := VerifX(1)
+	for _, n := range []int{3, 2} {
+		if IsStrongQuorum(e.qualitySupport(VerifX(n)), e.total()) {
+			backed = VerifX(n)
+			break
+		}
+	}
+	// round 0 fails: the peers prepared something else, everybody commits bottom
+	for _, idx := range []int{0, 1} {
+		e.deliver(e.message(idx, 0, PREPARE_PHASE, backed, 0, 0))
+	}
+	if e.phase() == PREPARE_PHASE {
+		e.fireAlarm(0)
+	}
+	sym.Assume(e.phase() == COMMIT_PHASE)
+	for _, idx := range []int{0, 1} {
+		if e.phase() == COMMIT_PHASE {
+			e.deliver(e.message(idx, 0, COMMIT_PHASE, &ECChain{}, 0, 0))
+		}
+	}
+	if e.phase() == COMMIT_PHASE {
+		e.fireAlarm(0)
+	}
+	sym.Assume(e.phase() == CONVERGE_PHASE && e.p.Progress().Round == 1)
+	// a peer converges on the value the QUALITY votes back
+	m := e.message(0, 1, CONVERGE_PHASE, backed, 2, 0)
+	sym.Assume(m != nil && e.deliver(m))
+	sym.Assume(e.phase() == CONVERGE_PHASE)
+	e.fireAlarm(0)
+	sym.Assert(e.phase() == PREPARE_PHASE && e.p.Progress().Round == 1, "T2: CONVERGE ends at its timeout")
+	mb := e.lastBroadcast()
+	if backed.Len() > 1 {
+		sym.Cover("late-quality-backs-a-longer-prefix")
+	} else {
+		sym.Cover("only-the-base-is-backed")
+	}
+	sym.Assert(mb.Payload.Phase == PREPARE_PHASE && mb.Payload.Value.Eq(backed), "R6: adopts the best-ticket CONVERGE value that is a QUALITY-backed prefix of its input, even when the QUALITY votes arrived late")
 }
